@@ -75,8 +75,29 @@ func wildClass(r *simcore.RNG, mode string) int {
 	}
 }
 
+// poison replaces about one value in twenty by NaN, +-Inf or a value beyond the
+// float32 range (coords mode "nonfinite": what a renderer emits for a model
+// with a singularity, or a model of absurd size).
+func poison(r *simcore.RNG, v float64) float64 {
+	if r.Intn(20) != 0 {
+		return v
+	}
+	return []float64{math.NaN(), math.Inf(1), math.Inf(-1), 1e39, -1e300}[r.Intn(5)]
+}
+
 func genTriangles(n int, coords string, seed uint64) []*sdf.Triangle3 {
 	out := make([]*sdf.Triangle3, n)
+	if coords == "nonfinite" {
+		r := simcore.NewRNG(seed)
+		for i := range out {
+			t := *indexTriangle(i)
+			for k := 0; k < 3; k++ {
+				t[k] = v3.Vec{X: poison(r, t[k].X), Y: poison(r, t[k].Y), Z: poison(r, t[k].Z)}
+			}
+			out[i] = &t
+		}
+		return out
+	}
 	if coords == "" || coords == "index" {
 		for i := range out {
 			out[i] = indexTriangle(i)
@@ -109,6 +130,26 @@ func genTriangles(n int, coords string, seed uint64) []*sdf.Triangle3 {
 				pool = append(pool, t[k])
 			}
 		}
+		if r.Intn(12) == 0 {
+			// a needle: two long edges meeting at an angle of 1e-7..1e-3 rad, the thin
+			// corner at a seeded vertex (non-degenerate, area > 0)
+			a := v3.Vec{X: wildFloat(r, 1), Y: wildFloat(r, 1), Z: wildFloat(r, 1)}
+			l := 0.5 + r.Float64()*20
+			eps := math.Pow(10, -3-4*r.Float64())
+			b := v3.Vec{X: a.X + l, Y: a.Y, Z: a.Z}
+			c := v3.Vec{X: a.X + l, Y: a.Y + l*eps, Z: a.Z}
+			switch r.Intn(3) {
+			case 0:
+				t = sdf.Triangle3{a, b, c}
+			case 1:
+				t = sdf.Triangle3{c, a, b}
+			default:
+				t = sdf.Triangle3{b, c, a}
+			}
+			if r.Intn(2) == 0 {
+				t[1], t[2] = t[2], t[1]
+			}
+		}
 		if i > 0 && r.Intn(16) == 0 {
 			t = *out[r.Intn(i)] // duplicate triangle
 		}
@@ -119,6 +160,17 @@ func genTriangles(n int, coords string, seed uint64) []*sdf.Triangle3 {
 
 func genLines(n int, coords string, seed uint64) []*sdf.Line2 {
 	out := make([]*sdf.Line2, n)
+	if coords == "nonfinite" {
+		r := simcore.NewRNG(seed)
+		for i := range out {
+			l := *indexLine(i)
+			for k := 0; k < 2; k++ {
+				l[k] = v2.Vec{X: poison(r, l[k].X), Y: poison(r, l[k].Y)}
+			}
+			out[i] = &l
+		}
+		return out
+	}
 	if coords == "" || coords == "index" {
 		for i := range out {
 			out[i] = indexLine(i)
